@@ -340,7 +340,7 @@ fn final_dump(h: &[Op]) -> (Result<Dump, (usize, String)>, u64) {
 
 pub fn c05(tier: Tier) -> i32 {
     let rep = Report::new("C05", tier);
-    rep.rule("all enabled write histories h up to the stated depth; for every insertion position i (and every pair i<=j) the history with Compact / Checkpoint inserted is executed and its final dump must equal the final dump of h; plus the overwrite family 'set K=n; compact' for n rounds; non-trivial = the inserted compaction had at least one preceding write");
+    rep.rule("all enabled write histories h up to the stated depth; for every insertion position i (and every pair i<=j) the history with Compact / Checkpoint inserted is executed and its final dump must equal the final dump of h; plus the overwrite family 'set K=n; compact' for n rounds; plus the gap family: four nodes and every non-empty subset of seven relationships whose sources leave gaps in id order, with Compact / Compact + reopen / Compact + transaction + Compact appended; non-trivial = the inserted compaction had at least one preceding write");
     let nodes = vec![1u64, 2];
     let alphabet = sigma_write(&nodes, tier == Tier::Thorough);
     let ex = Explorer { rep: &rep, alphabet, node_ids: nodes, max_depth: tier.pick(3, 4), wall_cap_s: tier.pick(45.0, 1500.0), prune_violating: true };
@@ -426,6 +426,54 @@ pub fn c05(tier: Tier) -> i32 {
     }
     rep.set("overwrite_family_rounds", json!(rounds));
     rep.set("overwrite_family_violations", json!(fam_viol));
+    // Gap family: four nodes and EVERY subset of seven relationships (sources with gaps between them in id order,
+    // incoming lists over several sources), committed in one transaction; dump before == dump after Compact,
+    // after a second transaction + Compact, and after reopen.
+    {
+        let edges: [(u64, u64); 7] = [(1, 4), (3, 2), (3, 4), (2, 1), (4, 3), (1, 2), (4, 4)];
+        let subsets: Vec<u32> = (1..(1u32 << edges.len())).collect();
+        let res: Vec<(u32, Option<(String, String, Vec<Op>)>, u64)> = subsets
+            .par_iter()
+            .map(|&mask| {
+                let mut tx: Vec<Op> = (1..=4u64).map(|e| Op::CreateNode { e, labels: vec!["A"] }).collect();
+                for (i, (a, b)) in edges.iter().enumerate() {
+                    if mask & (1 << i) != 0 {
+                        tx.push(Op::CreateEdge { s: *a, t: "R", d: *b });
+                    }
+                }
+                let base_h = vec![Op::Tx(tx)];
+                let (base, mut steps) = final_dump(&base_h);
+                let Ok(base) = base else { return (mask, None, steps) };
+                for tail in [vec![Op::Compact], vec![Op::Compact, Op::DropOpen], vec![Op::Compact, Op::Tx(vec![Op::SetNodeProp { e: 2, k: "k", v: Val::I(1) }, Op::RemoveNodeProp { e: 2, k: "k" }]), Op::Compact]] {
+                    let mut h = base_h.clone();
+                    h.extend(tail);
+                    let (d, st) = final_dump(&h);
+                    steps += st;
+                    match d {
+                        Err((i, e)) => return (mask, Some((format!("gap_family:step_failed:{}", h[i].kind()), e, h)), steps),
+                        Ok(d) => {
+                            if let Some((class, detail)) = base.diff(&d) {
+                                return (mask, Some((format!("gap_family:{class}"), detail, h)), steps);
+                            }
+                        }
+                    }
+                }
+                (mask, None, steps)
+            })
+            .collect();
+        let mut bad = 0;
+        for (mask, v, steps) in res {
+            rep.add_states(1);
+            rep.add_traces(4);
+            rep.add_transitions(steps);
+            rep.add_nontrivial(1);
+            if let Some((class, detail, h)) = v {
+                bad += 1;
+                rep.violation(Violation { class, kinds: vec!["gap_family".to_string(), format!("edges={}", mask.count_ones())], replay: json!({"engine":"seq","history": show_history(&h)}), detail });
+            }
+        }
+        rep.set("gap_family", json!({"edge_subsets": subsets.len(), "violating": bad}));
+    }
     rep.finish()
 }
 
